@@ -255,7 +255,7 @@ def dtLt (s1 : Int) (n1 : Nat) (s2 : Int) (n2 : Nat) : Bool := s1 < s2 || (s1 ==
 def dtEq (s1 : Int) (n1 : Nat) (s2 : Int) (n2 : Nat) : Bool := s1 == s2 && n1 == n2
 
 /-- the type switch of a binary operator once the second operand has the first one's type -/
-def arith (op : Op) (a b : V) : R :=
+def arithCore (op : Op) (a b : V) : R :=
   match op, a, b with
   | .add, .int x, .int y => .ok (.int (x + y))
   | .add, .long x, .long y => .ok (.long (x + y))
@@ -336,6 +336,12 @@ def arith (op : Op) (a b : V) : R :=
   | .lessEqual, .dateTime s1 n1, .dateTime s2 n2 => .ok (.bool (dtLt s1 n1 s2 n2 || dtEq s1 n1 s2 n2))
   | _, _, _ => opErr
 
+/-- `arithCore`, except that an un-modelled (host) second operand makes the result host-dependent -/
+def arith (op : Op) (a b : V) : R :=
+  match b with
+  | .host _ _ => .ok (.host "arith" [a, b])
+  | _ => arithCore op a b
+
 /-- operators whose second operand is converted to the first operand's type -/
 def sameTypeOps : List Op :=
   [.add, .sub, .mul, .div, .mod, .and, .or, .xor, .equal, .notEqual, .more, .less, .moreEqual, .lessEqual]
@@ -385,19 +391,25 @@ def binop (m : Mgr) (op : Op) (a b : V) : R :=
   | .lsh =>
     if a.typ == .null || b.typ == .null then .ok .null
     else (convert m b .integer).bind fun b' =>
-      match a, b' with
-      | .int x, .int n => if n < 0 then .err "NEGATIVE_SHIFT" else .ok (.int (shl64 x n))
-      | .long x, .int n => if n < 0 then .err "NEGATIVE_SHIFT" else .ok (.long (shl64 x n))
-      | _, .int _ => opErr
-      | _, _ => .ok (.host "shift-count" [b'])
+      match b' with
+      | .int n =>
+        if n < 0 then .err "NEGATIVE_SHIFT"
+        else (match a with
+          | .int x => .ok (.int (shl64 x n))
+          | .long x => .ok (.long (shl64 x n))
+          | _ => opErr)
+      | _ => .ok (.host "shift-count" [b'])
   | .rsh =>
     if a.typ == .null || b.typ == .null then .ok .null
     else (convert m b .integer).bind fun b' =>
-      match a, b' with
-      | .int x, .int n => if n < 0 then .err "NEGATIVE_SHIFT" else .ok (.int (shr64 x n))
-      | .long x, .int n => if n < 0 then .err "NEGATIVE_SHIFT" else .ok (.long (shr64 x n))
-      | _, .int _ => opErr
-      | _, _ => .ok (.host "shift-count" [b'])
+      match b' with
+      | .int n =>
+        if n < 0 then .err "NEGATIVE_SHIFT"
+        else (match a with
+          | .int x => .ok (.int (shr64 x n))
+          | .long x => .ok (.long (shr64 x n))
+          | _ => opErr)
+      | _ => .ok (.host "shift-count" [b'])
   | .in_ =>
     -- In(value1 = container, value2 = element)
     if a.typ == .null || b.typ == .null then .ok .null
